@@ -115,4 +115,20 @@ example : (run ({} : St) demoActs).map (·.acked) = some [1, 0, 2] := by decide
 example : (run ({} : St) demoActs).map (·.sentLog) = some [(0, 0), (0, 1), (2, 0), (2, 2)] := by decide
 example : (run ({} : St) demoActs).map (fun s => s.queue ++ s.inflight ++ s.disk) = some [] := by decide
 
+/-! ### fact obligations (Tie B): the mechanisms behind the actions of `E2E.step` -/
+
+/-- `connFail`: the chunk in hand, the acknowledger's channel and pending map and the leftovers not yet resent all go back -/
+theorem C01_fact_nothing_forgotten : Facts.client_last_chunk_assignments =
+    ["resendLeftovers:&chunk", "resendLeftovers:nil(after-send=true,after-failure-return=true)",
+     "processInput:&chunk", "processInput:nil(after-send=true,after-failure-return=true)"] ∧
+    Facts.client_leftover_sources = ["fromPrevious...", "fromAckerChannel...", "fromAckerPending...", "*session.lastChunk"] ∧
+    Facts.stop_resend_collects_previous = ["collectLeftovers(leftovers, endImmediately)", "collectLeftovers(leftovers, endImmediately)"] := by decide
+/-- `stop`: the listener flushes and closes every connection's sink, also on the stop path -/
+theorem C01_fact_listener_final_flush : Facts.e2e_listener_final_flush = ["mlineReader.FlushAll", "recvChan.Flush", "recvChan.Close"] := by decide
+/-- `restart`: pipelines are re-created for the queue directories of every output -/
+theorem C01_fact_recovery_all_outputs : Facts.e2e_recovery_scans = ["range args.OutputBufferPairs", "ListBufferIDs"] := by decide
+/-- `stop` in the buffer: queue, chunk in hand and window are saved; a hand-back that cannot be saved is counted dropped -/
+theorem C01_fact_buffer_saves : Facts.buffer_save_everything = ["range feeder.inputChannel", "lastInputChunk", "range feeder.outputChannel"] ∧
+    Facts.buffer_leftover_calls = ["man.UnloadOrDropChunk"] := by decide
+
 end C01
